@@ -24,6 +24,8 @@ import (
 	"encoding/json"
 	"errors"
 	"fmt"
+	"os"
+	"runtime/pprof"
 	"sort"
 	"strings"
 	"sync"
@@ -718,6 +720,12 @@ func pick(names []string, idx []int) []string {
 
 func run(r *evid.Run) {
 	ctx := context.Background()
+	if pf := os.Getenv("C12_CPUPROFILE"); pf != "" {
+		if f, err := os.Create(pf); err == nil {
+			_ = pprof.StartCPUProfile(f)
+			defer pprof.StopCPUProfile()
+		}
+	}
 	r.Rule("case = (catalogue image, include set, exclude set, custom-options kept/dropped, known-extensions kept/dropped, allow-imported, copy/in-place); include and exclude sets are ALL subsets of size <= 2 (quick: <= 1 each with the full option grid, plus every (<=1, 2) and (2, <=1) combination with default options) of ALL names of the image (packages, messages, nested messages, map entries, groups, enums, services, methods, extensions, selected well-known names). A case is distinct non-trivial when its filter (image, include, exclude, options) is not contradictory, FilterImage removed at least one element, and all oracles ran on the result")
 	r.Assume("the second application for idempotence re-uses the include names and only those exclude names that still exist in the filtered image (an exclude name that was removed makes the second call fail with 'not found' by documented contract)")
 	r.Assume("option VALUES set on surviving descriptors are not counted as references to an excluded custom option or Any payload type (they are data, and stay byte-identical)")
